@@ -352,6 +352,11 @@ def run(run, model):
         run.try_rule(c15.r15_3, model, mir, {"interface_hash==compute_hash()"}, False)
     except Exception as e:  # pragma: no cover
         raise
+    from rules import c12, c07
+    run.rule("R04.14", "parser diagnostics carry ranges of existing tokens (shared with C12 R12.5): a range computed past the last token lies outside the text")
+    run.try_rule(c12.r12_5, model, mir)
+    run.rule("R04.15", "mono never queues an instance under a name that is not in the function table (shared with C07 R07.7)")
+    run.try_rule(c07.r07_7, model)
     run.rule("R04.11", "`go f` on a plain function value does not panic in the back end (shared with C08 R08.7)")
     run.try_rule(c08.r08_7, model)
     from rules import c07
